@@ -49,7 +49,13 @@ pub fn replay(args: &[String], out: &mut Out) {
     let seed = arg_u64(args, "--seed", 1);
     for (ci, c) in cases.iter().enumerate() {
         let (nin, nout) = (c["shape"][0].as_u64().unwrap() as usize, c["shape"][1].as_u64().unwrap() as usize);
-        let anc = ancestor(seed, nin, nout);
+        let mut anc = ancestor(seed, nin, nout);
+        // ancestors whose last input already pins the lock time (Gen_PsetMerge.LockCases)
+        match c["anc"].as_str() {
+            Some("hlock") => anc.inputs_mut()[nin - 1].required_height_locktime = Some(elements::locktime::Height::from_consensus(499_999_999).unwrap()),
+            Some("tlock") => anc.inputs_mut()[nin - 1].required_time_locktime = Some(elements::locktime::Time::from_consensus(u32::MAX).unwrap()),
+            _ => {}
+        }
         out.count("distinct_cases");
         if ci % 700 == 9 { out.sample(c.clone()); }
         let case = json!({"case": c, "case_index": ci, "seed": seed});
